@@ -109,7 +109,7 @@ theorem evalRuleM_dist (hash : Tuple → Nat) (n : Nat) (hn : 0 < n) (lk : Strin
       | none => rw [hc] at hev; cases hev
       | some E =>
         rw [hc] at hev
-        simp only [headOf, hagg, Bool.false_eq_true, if_false, headRows] at hev ⊢
+        simp only [headOf, headOfSpec, hagg, Bool.false_eq_true, if_false, headRows] at hev ⊢
         -- every partition's computed columns succeed
         have hcw : ∀ w, w ∈ List.range n → ∃ Ew, optMapM (applyCols cols) (evalPos (partLk hash n w lk) r.posAtoms [[]]) = some Ew := by
           intro w hw
